@@ -12,6 +12,20 @@ Proof.
   rewrite Hx. simpl. rewrite IH. reflexivity.
 Qed.
 
+Lemma map_map_ok {A B C} (f : B -> res C) (h : A -> B) (g : A -> C) (l : list A) :
+  Forall (fun x => f (h x) = Ok (g x)) l -> map f (map h l) = map Ok (map g l).
+Proof. induction 1 as [|x l Hx Hl IH]; simpl; [reflexivity|]. rewrite Hx, IH. reflexivity. Qed.
+
+Lemma depth_scan_ok d0 l :
+  depth_scan d0 (map Ok l) = Ok (if forallb (Z.eqb d0) l then d0 else -1).
+Proof.
+  induction l as [|d l IH]; simpl; [reflexivity|].
+  destruct (d0 =? d); simpl; [exact IH|reflexivity].
+Qed.
+
+Lemma all_regular_ok l : all_regular (map Ok l) = Ok (forallb (fun b : bool => b) l).
+Proof. induction l as [|b l IH]; simpl; [reflexivity|]. destruct b; simpl; [exact IH|reflexivity]. Qed.
+
 Lemma is_string_params_of a r : is_string_params (params_of a r) = is_string_kind a.
 Proof. destruct a as [[]|], r; reflexivity. Qed.
 
@@ -49,8 +63,8 @@ Proof.
   - simpl. apply (IHc None None Hnp).
   - simpl. apply (IHc None None Hnp).
   - simpl.
-    rewrite (mapM_id_map_ok f_purelist_depth (form_of_p None None) (c_purelist_depth None)).
-    + reflexivity.
+    rewrite (map_map_ok f_purelist_depth (form_of_p None None) (c_purelist_depth None)).
+    + destruct (map (c_purelist_depth None) cs) as [|d0 rest]; simpl; [reflexivity|]. apply depth_scan_ok.
     + apply forallb_Forall_np in Hnp.
       eapply Forall_impl2; [|exact H|exact Hnp]. intros x Hx Hn. apply Hx, Hn.
   - reflexivity.
@@ -118,8 +132,8 @@ Lemma purelist_isregular_agree c : forall a r,
   f_purelist_isregular (form_of_p a r c) = Ok (c_purelist_isregular c).
 Proof.
   induction c using content_ind'; intros a r; simpl; try reflexivity; try apply IHc.
-  rewrite (mapM_id_map_ok f_purelist_isregular (form_of_p None None) c_purelist_isregular).
-  - simpl. f_equal. induction cs; simpl; [reflexivity|]. inversion H; subst. rewrite IHcs; auto.
+  rewrite (map_map_ok f_purelist_isregular (form_of_p None None) c_purelist_isregular).
+  - rewrite all_regular_ok. f_equal. clear H. induction cs; simpl; [reflexivity|]. rewrite IHcs. reflexivity.
   - eapply Forall_impl; [|exact H]. intros x Hx. apply Hx.
 Qed.
 
